@@ -59,3 +59,11 @@ BUILT['C07'] = (
     "class constructor and predicate with checking on; anything further than 1e-6 from the group must raise / be False, "
     "unperturbed primitives must be accepted, and no constructed object may hold None or a wrongly shaped element",
     NOTE, "DESIGN.md 4 C07")
+BUILT['C08'] = (
+    "exhaustive enumeration of the operator table at the expression boundary, checked against a specification table "
+    "transcribed from the docstrings; per-dunder tap for dispatch diagnosis",
+    "all 16x16 ordered class pairs x {* / + - ** @} x {single, multi}-valued operands (plus == != ^ | for same-class pairs and "
+    "class x scalar cells) are executed with random non-identity values: undocumented pairs of different classes must raise "
+    "(any return - None, identity, foreign elements - is a violation), documented pairs must return the documented class with "
+    "the broadcast length; the space is finite and enumerated completely on every run",
+    NOTE, "DESIGN.md 4 C08 + Appendix A")
